@@ -310,11 +310,11 @@ theorem AInv.init {dnorm : List 𝕜 → ℝ} (hN : NormContract dnorm) {vstart 
     rw [if_pos rfl]
     exact vdot_vdiv_self hN h0
 
-/-- **main lemma**: the state returned by `arnoldiCore` satisfies the final predicate for its `k` vectors -/
-theorem arnoldiCore_fin {dnorm : List 𝕜 → ℝ} (hN : NormContract dnorm) {vstart : List 𝕜} {numiter : Nat}
-    {st : AState 𝕜 ℝ} (h : arnoldiCore Afun dnorm vstart numiter = .ok st) :
+/-- **main lemma**: the state returned by `arnoldiCoreU` (uncapped iteration) satisfies the final predicate for its `k` vectors -/
+theorem arnoldiCoreU_fin {dnorm : List 𝕜 → ℝ} (hN : NormContract dnorm) {vstart : List 𝕜} {numiter : Nat}
+    {st : AState 𝕜 ℝ} (h : arnoldiCoreU Afun dnorm vstart numiter = .ok st) :
     ∃ k, k ≤ numiter ∧ AFin vstart.length Afun st k := by
-  obtain ⟨h0, hm, rfl⟩ := arnoldiCore_ok Afun dnorm h
+  obtain ⟨h0, hm, rfl⟩ := arnoldiCoreU_ok Afun dnorm h
   have h0' : 0 < dnorm vstart := of_decide_eq_true h0
   have hn : 0 < vstart.length := hN.pos_dim h0'
   have hl := arnoldiLoop_inv hN hn (numiter - 1) 0 _ (AInv.init (Afun := Afun) hN h0')
@@ -326,6 +326,20 @@ theorem arnoldiCore_fin {dnorm : List 𝕜 → ℝ} (hN : NormContract dnorm) {v
     have := arnoldiFinish_fin (hl.2 (by simpa using hb))
     rw [show 0 + (numiter - 1) = numiter - 1 by omega, show numiter - 1 + 1 = numiter by omega] at this
     exact ⟨numiter, Nat.le_refl _, this⟩
+
+/-- the capped run (F11): final predicate for its `k ≤ min numiter (len vstart)` vectors -/
+theorem arnoldiCore_fin' {dnorm : List 𝕜 → ℝ} (hN : NormContract dnorm) {vstart : List 𝕜} {numiter : Nat}
+    {st : AState 𝕜 ℝ} (h : arnoldiCore Afun dnorm vstart numiter = .ok st) :
+    ∃ k, k ≤ numiter ∧ k ≤ vstart.length ∧ AFin vstart.length Afun st k := by
+  obtain ⟨k, hk, hf⟩ := arnoldiCoreU_fin hN h
+  exact ⟨k, by omega, by omega, hf⟩
+
+/-- **main lemma**: the state returned by `arnoldiCore` satisfies the final predicate for its `k` vectors -/
+theorem arnoldiCore_fin {dnorm : List 𝕜 → ℝ} (hN : NormContract dnorm) {vstart : List 𝕜} {numiter : Nat}
+    {st : AState 𝕜 ℝ} (h : arnoldiCore Afun dnorm vstart numiter = .ok st) :
+    ∃ k, k ≤ numiter ∧ AFin vstart.length Afun st k := by
+  obtain ⟨k, hk, _, hf⟩ := arnoldiCore_fin' hN h
+  exact ⟨k, hk, hf⟩
 
 /-- the projected map is the returned Hessenberg matrix: `⟪v_a, A v_b⟫ = H[a, b]` -/
 theorem AFin.proj {st : AState 𝕜 ℝ} {k : Nat} (h : AFin n Afun st k) {a b : Nat} (ha : a < k) (hb : b < k) :
